@@ -1,6 +1,6 @@
 (* C11: the identity map and the unique-key indexes agree with the objects of the session, for every history.
    Inv_idx is the invariant; Pk s := "a dirty site was reached, or Inv_idx s" is what every model function preserves. *)
-Require Import PonyV.Model.SessionBase PonyV.Model.SessionDb PonyV.Model.Session.
+Require Import PonyV.Gen.SessionFlags PonyV.Model.SessionBase PonyV.Model.SessionDb PonyV.Model.Session.
 Require Import PonyV.Proofs.SessionLemmas PonyV.Proofs.SessionState.
 From Coq Require Import Arith.
 
@@ -1111,6 +1111,7 @@ Proof.
       + rewrite (any_del_kframe sch s1 s1' items1 F1). exact AR. }
   destruct r2 as [s2 u2|s2 er]; [|exact P2]. cbn [out_state] in P2.
   match goal with |- context [if ?c then _ else _] => destruct c end. simpl. apply Pk_dirty. discriminate.
+  destruct remove_rebooks_one_to_many; [|exact P2].
   cbn [out_state]. eapply Pk_fields; [reflexivity|reflexivity|reflexivity|].
   eapply kframe_Pk; [|exact P2]. eapply kframe_trans. apply kframe_put_sd. apply kframe_modcoll_add.
 Qed.
@@ -1796,7 +1797,7 @@ Proof.
   set (avs' := filter (fun p => negb (oval_eqb (obj_val s2 o (fst p)) (Some (snd p)))) avs).
   match goal with |- context [setmany_scan o e s2 false ?k] => destruct (setmany_scan o e s2 false k) as [[sio ch] cf] end.
   match goal with |- context [if ?c then (mark_declined s, RDecline) else _] => destruct c end. exact P.
-  destruct cf. { cbn [fst]. destruct ch. apply Pk_dirty. discriminate. exact P2. }
+  destruct cf. { destruct entity_set_registers_undo; cbn [fst]. exact P0. destruct ch. apply Pk_dirty. discriminate. exact P2. }
   assert (P3 : Pk sch (fold_left (setmany_apply sch o e) avs' s2)).
   { generalize avs'. intro l. generalize P2 ND2 EE2. generalize s2. clear -WF.
     induction l as [|p t IH]; intros s0 Q2 D2 E2; simpl. exact Q2.
